@@ -7206,8 +7206,9 @@ class SFTPServer:
         """
 
         if self._chroot:
+            # Note that normpath() preserves exactly two leading slashes
             normpath = posixpath.normpath(posixpath.join(b'/', path))
-            return posixpath.join(self._chroot, normpath[1:])
+            return posixpath.join(self._chroot, normpath.lstrip(b'/'))
         else:
             return path
 
